@@ -60,6 +60,9 @@ pub struct PSock {
     /// PTP over UDP/IPv4 (the harness builds and parses the IPv4 and UDP headers itself) instead of PTP over Ethernet
     udp: bool,
     ip_id: std::cell::Cell<u16>,
+    /// sdoId (12 bits) and domain number written into every frame sent (the daemon's configured values)
+    pub sdo: u16,
+    pub domain: u8,
 }
 
 const IP_MCAST_MAC: [u8; 6] = [0x01, 0x00, 0x5e, 0x00, 0x01, 0x81]; // 224.0.1.129
@@ -104,10 +107,18 @@ impl PSock {
             // software transmit timestamps (read back from the error queue by `send_ts`), software receive timestamps
             let flags: u32 = libc::SOF_TIMESTAMPING_TX_SOFTWARE | libc::SOF_TIMESTAMPING_RX_SOFTWARE | libc::SOF_TIMESTAMPING_SOFTWARE | libc::SOF_TIMESTAMPING_OPT_TSONLY;
             libc::setsockopt(fd, libc::SOL_SOCKET, libc::SO_TIMESTAMPING, &flags as *const _ as *const libc::c_void, 4);
-            Ok(PSock { fd, ifindex: idx as i32, udp, ip_id: std::cell::Cell::new(1) })
+            Ok(PSock { fd, ifindex: idx as i32, udp, ip_id: std::cell::Cell::new(1), sdo: 0, domain: 0 })
         }
     }
     pub fn send(&self, ptp: &[u8]) -> bool {
+        // the instance's sdoId and domain (majorSdoId: high nibble of octet 0, domain: octet 4, minorSdoId: octet 5)
+        let mut patched = ptp.to_vec();
+        if patched.len() >= 6 {
+            patched[0] = (patched[0] & 0x0f) | (((self.sdo >> 8) as u8) << 4);
+            patched[4] = self.domain;
+            patched[5] = self.sdo as u8;
+        }
+        let ptp: &[u8] = &patched;
         let mut frame: Vec<u8>;
         let data: &[u8] = if self.udp {
             // event messages (types 0..3) go to port 319, general messages to 320
@@ -335,19 +346,28 @@ pub struct Variant {
     pub swap: bool,
     /// both ports use the peer-to-peer delay mechanism
     pub p2p: bool,
+    /// the instance's sdoId and domain number (default 0/0; every third worker runs 0x1a5 / 7)
+    pub sdo: u16,
+    pub domain: u8,
 }
 
 impl Variant {
     pub fn from_index(first: u64, prop: &str) -> Variant {
         let alt = (first / 4) % 2 == 1;
-        Variant { path_trace: first % 2 == 1, udp: (first / 2) % 2 == 1, swap: alt && prop != "C12", p2p: alt && prop == "C12" }
+        let other_domain = first % 3 == 1;
+        Variant { path_trace: first % 2 == 1, udp: (first / 2) % 2 == 1, swap: alt && prop != "C12", p2p: alt && prop == "C12", sdo: if other_domain { 0x1a5 } else { 0 }, domain: if other_domain { 7 } else { 0 } }
     }
     pub fn index(&self) -> u64 {
         self.path_trace as u64 + 2 * self.udp as u64 + 4 * (self.swap || self.p2p) as u64
     }
     pub fn from_render(v: &Value, prop: &str) -> Variant {
         let alt = v["variant_alt"].as_bool().unwrap_or(false);
-        Variant { path_trace: v["path_trace"].as_bool().unwrap_or(false), udp: v["transport"].as_str() == Some("udp-ipv4"), swap: alt && prop != "C12", p2p: alt && prop == "C12" }
+        let mut var = Variant { path_trace: v["path_trace"].as_bool().unwrap_or(false), udp: v["transport"].as_str() == Some("udp-ipv4"), swap: alt && prop != "C12", p2p: alt && prop == "C12", sdo: 0, domain: 0 };
+        // sdoId / domain are a function of the worker index
+        let again = Variant::from_index(var.index(), prop);
+        var.sdo = again.sdo;
+        var.domain = again.domain;
+        var
     }
 }
 
@@ -427,13 +447,15 @@ impl World {
         let dir = std::env::temp_dir().join(format!("vcheck-e2e-{}-{}", std::process::id(), GEN.fetch_add(1, std::sync::atomic::Ordering::Relaxed)));
         std::fs::create_dir_all(&dir).map_err(|e| e.to_string())?;
         let cfg = format!(
-            "loglevel = \"{ll}\"\nsdo-id = 0\ndomain = 0\npriority1 = 128\nidentity = \"001b19aa00010000\"\nvirtual-system-clock = true\npath-trace = {}\n\n[[port]]\ninterface = \"a0\"\nnetwork-mode = \"{nm}\"\nhardware-clock = \"none\"\nannounce-interval = {l}\nsync-interval = {l}\ndelay-interval = -2\ndelay-mechanism = \"{dm}\"\n\n[[port]]\ninterface = \"b0\"\nnetwork-mode = \"{nm}\"\nhardware-clock = \"none\"\nannounce-interval = {l}\nsync-interval = {l}\ndelay-interval = -2\ndelay-mechanism = \"{dm}\"\n\n[observability]\nobservation-path = \"{}\"\n",
+            "loglevel = \"{ll}\"\nsdo-id = {sdo}\ndomain = {dom}\npriority1 = 128\nidentity = \"001b19aa00010000\"\nvirtual-system-clock = true\npath-trace = {}\n\n[[port]]\ninterface = \"a0\"\nnetwork-mode = \"{nm}\"\nhardware-clock = \"none\"\nannounce-interval = {l}\nsync-interval = {l}\ndelay-interval = -2\ndelay-mechanism = \"{dm}\"\n\n[[port]]\ninterface = \"b0\"\nnetwork-mode = \"{nm}\"\nhardware-clock = \"none\"\nannounce-interval = {l}\nsync-interval = {l}\ndelay-interval = -2\ndelay-mechanism = \"{dm}\"\n\n[observability]\nobservation-path = \"{}\"\n",
             path_trace,
             dir.join("obs.sock").display(),
             l = ANN_LOG,
             ll = std::env::var("VERIF_E2E_LOGLEVEL").unwrap_or_else(|_| "info".into()),
             nm = if udp { "ipv4" } else { "ethernet" },
-            dm = if variant.p2p { "P2P" } else { "E2E" }
+            dm = if variant.p2p { "P2P" } else { "E2E" },
+            sdo = variant.sdo,
+            dom = variant.domain
         );
         std::fs::write(dir.join("statime.toml"), cfg).map_err(|e| e.to_string())?;
         let log = std::fs::File::create(dir.join("daemon.log")).map_err(|e| e.to_string())?;
@@ -448,8 +470,12 @@ impl World {
         let daemon = dcmd.arg("-c").arg(dir.join("statime.toml")).stdin(Stdio::null()).stdout(log.try_clone().map_err(|e| e.to_string())?).stderr(log).spawn().map_err(|e| format!("spawn daemon: {}", e))?;
         // "a" is the parent's segment, "b" the other one
         let (ifa, ifb) = if variant.swap { ("b1", "a1") } else { ("a1", "b1") };
-        let a1 = PSock::open(ifa, udp)?;
-        let b1 = PSock::open(ifb, udp)?;
+        let mut a1 = PSock::open(ifa, udp)?;
+        let mut b1 = PSock::open(ifb, udp)?;
+        a1.sdo = variant.sdo;
+        a1.domain = variant.domain;
+        b1.sdo = variant.sdo;
+        b1.domain = variant.domain;
         let mut w = World {
             dir,
             variant,
@@ -1639,7 +1665,7 @@ pub fn case_c10(w: &mut World, t: &mut Tape) -> E2eOut {
         if h.source != master_port {
             out.fail("daemon: frame on the master port's segment does not bear that port's identity", format!("{:?} (type {}) ; {}", h.source, h.msg_type, rendered));
         }
-        if h.domain != 0 || h.major_sdo != 0 || h.minor_sdo != 0 || h.version != 2 {
+        if h.domain != w.variant.domain || h.major_sdo != (w.variant.sdo >> 8) as u8 || h.minor_sdo != w.variant.sdo as u8 || h.version != 2 {
             out.fail("daemon: emitted frame bears a wrong domain / sdoId / version", format!("type {} domain {} sdo {}/{} version {}", h.msg_type, h.domain, h.major_sdo, h.minor_sdo, h.version));
         }
         if m.encode().len() > 1024 {
@@ -1793,7 +1819,7 @@ pub fn case_c02(w: &mut World, t: &mut Tape) -> E2eOut {
         let median = tail[tail.len() / 2];
         let p90 = tail[tail.len() * 9 / 10];
         // stated real-time tolerance (calibration: DESIGN.md 0.2): loose in the 30 s quick runs, tighter in longer ones
-        let (b_med, b_p90) = if run_s >= 60 { (100_000.0, 400_000.0) } else { (1_000_000.0, 3_000_000.0) };
+        let (b_med, b_p90) = if run_s >= 60 { (100_000.0, 400_000.0) } else { (200_000.0, 1_000_000.0) };
         if median > b_med || p90 > b_p90 {
             out.fail("daemon: clock of the slave daemon does not stay near its master's within the stated tolerance", format!("last quarter of {} s: median |offset| {:.0} ns (allowed {:.0}), 90th percentile {:.0} ns (allowed {:.0}) ; {}", run_s, median, b_med, p90, b_p90, rendered));
         }
@@ -1906,6 +1932,8 @@ pub fn worker_main(args: &[String]) -> i32 {
             o.insert("variant_alt".into(), json!(variant.swap || variant.p2p));
             o.insert("slave_port".into(), json!(w.slave_idx + 1));
             o.insert("delay_mechanism".into(), json!(if variant.p2p { "P2P" } else { "E2E" }));
+            o.insert("sdo_id".into(), json!(variant.sdo));
+            o.insert("domain".into(), json!(variant.domain));
         }
         let line = json!({
             "index": idx,
